@@ -15,7 +15,7 @@
     theorems hold for whatever re.sub / create_diff compute).  The findings clause depends on how the source
     writes the index handed to get_findings_for_location; it is table-indexed (positive for [OneBased], refuted
     by a witness for [ZeroBased], the pinned form).  Not covered here: the diff TEXT (C03 / Diff.v), decoding
-    failures (C10). *)
+    failures beyond `recorded, file untouched` (C10). *)
 From CM Require Import Model.RegexPipe Spec.RegexPipeSpec Proofs.RegexPipeFacts Generated.Tables.
 From Coq Require Import Sorted.
 
@@ -93,9 +93,40 @@ Theorem C19_sast_only_finding_lines :
 Proof. exact sast_only_finding_lines. Qed.
 Print Assumptions C19_sast_only_finding_lines.
 
-Theorem C19_sast_results_none_raises :
+(** _apply of the SAST class raises (TypeError) when handed results=None; whether that, or an undecodable file,
+    escapes apply() depends on how apply() is written (table [regex_apply_isolation], extracted from the source):
+    repaired form (fix 49f7472): a failure is recorded for the file -- apply returns None, writes nothing, every finding
+    of the file context is reported unfixed at line 0 -- and nothing escapes; pinned form: the exception escapes
+    (class kf_regex_no_isolation).  A decodable file handed a result list goes through the theorems above unchanged. *)
+Theorem C19_sast_apply_raises_on_none :
   forall (sub : str -> str) fc v lines, sast_apply_lines sub fc v None lines = None.
 Proof. reflexivity. Qed.
+Print Assumptions C19_sast_apply_raises_on_none.
+
+Theorem C19_regex_file_decoded :
+  forall (sub : str -> str) fc D (mkdiff : list str -> list str -> D) iso v dry lines,
+    regex_apply_file sub fc mkdiff iso v dry (Some lines) = Done (regex_apply sub fc mkdiff v dry lines) /\
+    forall rs, exists o, sast_apply sub fc mkdiff v dry (Some rs) lines = Some o /\
+                         sast_apply_file sub fc mkdiff iso v dry (Some rs) (Some lines) = Done o.
+Proof. exact regex_apply_file_decoded. Qed.
+Print Assumptions C19_regex_file_decoded.
+
+Definition C19_regex_isolation_statement (iso : regex_isolation) : Prop :=
+  match iso with
+  | TryReadTransform =>
+      forall (sub : str -> str) fc D (mkdiff : list str -> list str -> D) v dry,
+        regex_apply_file sub fc mkdiff iso v dry None = Failed ReadFailed (failure_unfixed fc) /\
+        (forall results, sast_apply_file sub fc mkdiff iso v dry results None = Failed ReadFailed (failure_unfixed fc)) /\
+        (forall lines, sast_apply_file sub fc mkdiff iso v dry None (Some lines) = Failed TransformFailed (failure_unfixed fc)) /\
+        (forall decoded, regex_apply_file sub fc mkdiff iso v dry decoded <> Raises) /\
+        (forall results decoded, sast_apply_file sub fc mkdiff iso v dry results decoded <> Raises)
+  | NoTry =>
+      exists (sub : str -> str) fc lines,
+        regex_apply_file sub fc (fun _ _ => tt) iso OneBased false None = Raises /\
+        sast_apply_file sub fc (fun _ _ => tt) iso OneBased false None (Some lines) = Raises
+  end.
+Theorem C19_sast_results_none_raises : C19_regex_isolation_statement regex_apply_isolation.
+Proof. exact (regex_isolation_all regex_apply_isolation). Qed.
 Print Assumptions C19_sast_results_none_raises.
 
 (** ** findings of a change = exactly the findings whose range contains the changed line (table-indexed) *)
@@ -255,6 +286,33 @@ Theorem C19_xml_apply_guards :
                   guard_hits dempty g (xcs_diff cs) = false).
 Proof. exact xml_apply_guards. Qed.
 Print Assumptions C19_xml_apply_guards.
+
+(** the UTF-8 re-read of the original (after `if not changes`, before the diff): table [xml_pipeline_diff_guard].
+    Current form (fix c634845): an edited document that does not decode as UTF-8 is a recorded failure, the file is
+    untouched and nothing escapes apply(); pinned form / 927c1e3 only: UnicodeDecodeError escapes
+    (class kf_xml_reread_no_isolation). *)
+Definition C19_xml_reread_statement (g : xml_diff_guard) : Prop :=
+  (forall fc D (mkdiff : str -> str -> D) dempty step dry original parse,
+      xml_apply_file fc mkdiff dempty g step dry original parse true = Some (xml_apply fc mkdiff dempty g step dry original parse)) /\
+  (forall fc D (mkdiff : str -> str -> D) dempty step dry original,
+      xml_apply_file fc mkdiff dempty g step dry original None false = Some (xml_apply fc mkdiff dempty g step dry original None) /\
+      forall evs, snd (run_steps step evs) = [] ->
+        xml_apply_file fc mkdiff dempty g step dry original (Some evs) false =
+        Some {| xo_ret := None; xo_file := original; xo_failed := false; xo_unfixed := [] |}) /\
+  match g with
+  | DiffGuardRereadTry =>
+      (forall fc D (mkdiff : str -> str -> D) dempty step dry original evs,
+          snd (run_steps step evs) <> [] ->
+          xml_apply_file fc mkdiff dempty g step dry original (Some evs) false = Some (xml_failure_out fc original)) /\
+      (forall fc D (mkdiff : str -> str -> D) dempty step dry original parse ok,
+          xml_apply_file fc mkdiff dempty g step dry original parse ok <> None)
+  | NoDiffGuard | DiffGuard =>
+      exists fc step original evs,
+        xml_apply_file fc (fun _ _ => tt) (fun _ => false) g step false original (Some evs) false = None
+  end.
+Theorem C19_xml_reread_isolated : C19_xml_reread_statement xml_pipeline_diff_guard.
+Proof. exact (xml_reread_all xml_pipeline_diff_guard). Qed.
+Print Assumptions C19_xml_reread_isolated.
 
 (** ** refutations (class kf_xml_cdata_escaped): XMLGenerator.characters escapes inside a CDATA section too *)
 Theorem C19_xml_refuted_cdata :
